@@ -252,6 +252,73 @@ theorem cppStringTriL_render {tbl : List (Char × Str)} (ht : TableOk tbl) (s : 
   rw [detri_id _ (hasTrigraph_render ht s h)]
   exact cppStringL_render ht s
 
+/-! ## B'. `?` escaped: no two question marks are ever adjacent in a rendered literal -/
+
+/-- When the table writes `?` as `\?`, the rendered body (followed by the closing quote) contains
+no trigraph, whatever the string. -/
+theorem triScan_render_escaped {tbl : List (Char × Str)} (ht : TableOk tbl)
+    (hq : tbl.lookup '?' = some ['\\', '?']) :
+    ∀ (s : Str) (qo : Nat), qo ≤ 1 → triScan qo (renderBody tbl s ++ ['"']) = false := by
+  intro s
+  induction s with
+  | nil =>
+    intro qo _
+    simp [renderBody, triScan, triChar_quote]
+  | cons c cs ih =>
+    intro qo hle
+    have verbatim : c ≠ '?' → triScan qo (c :: (renderBody tbl cs ++ ['"'])) = false := by
+      intro hc
+      rw [triScan_cons]
+      simp only [hc, if_false, Bool.or_eq_false_iff, Bool.and_eq_false_iff, decide_eq_false_iff_not]
+      exact ⟨Or.inl (by omega), ih 0 (by omega)⟩
+    simp only [renderBody, List.append_assoc]
+    unfold escOf
+    cases hl : tbl.lookup c with
+    | none =>
+      have hc : c ≠ '?' := by intro h; subst h; rw [hq] at hl; cases hl
+      simpa using verbatim hc
+    | some e =>
+      have hrow := lookup_all ht.1 hl
+      simp only [rowOk, Bool.or_eq_true, Bool.and_eq_true] at hrow
+      rcases hrow with ⟨he, _⟩ | hrow
+      · have he' : e = [c] := by simpa using he
+        subst he'
+        have hc : c ≠ '?' := by
+          intro h; subst h; rw [hq] at hl
+          simp at hl
+        simpa using verbatim hc
+      · match e, hrow with
+        | [b, x], hrow =>
+          simp only [Bool.and_eq_true, decide_eq_true_eq, beq_iff_eq] at hrow
+          obtain ⟨hb, _⟩ := hrow
+          subst hb
+          simp only [List.cons_append, List.nil_append]
+          rw [triScan_cons]
+          have hb : ('\\' : Char) ≠ '?' := by decide
+          simp only [hb, if_false, triChar_bslash, Option.isSome_none, Bool.and_false, Bool.false_or]
+          rw [triScan_cons]
+          by_cases hxq : x = '?'
+          · simp only [hxq, if_true]
+            exact ih 1 (by omega)
+          · simp only [hxq, if_false]
+            have : ¬ (2 ≤ 0) := by omega
+            simp only [this, decide_false, Bool.false_and, Bool.false_or]
+            exact ih 0 (by omega)
+
+theorem hasTrigraph_render_escaped {tbl : List (Char × Str)} (ht : TableOk tbl)
+    (hq : tbl.lookup '?' = some ['\\', '?']) (s : Str) : hasTrigraph (renderStrL tbl s) = false := by
+  unfold hasTrigraph renderStrL
+  rw [triScan_cons]
+  have hqq : ('"' : Char) ≠ '?' := by decide
+  simp only [hqq, if_false, triChar_quote, Option.isSome_none, Bool.and_false, Bool.false_or]
+  exact triScan_render_escaped ht hq s 0 (by omega)
+
+theorem cppStringTriL_render_escaped {tbl : List (Char × Str)} (ht : TableOk tbl)
+    (hq : tbl.lookup '?' = some ['\\', '?']) (s : Str) : cppStringTriL (renderStrL tbl s) = some s := by
+  unfold cppStringTriL
+  rw [detri_id _ (hasTrigraph_render_escaped ht hq s)]
+  exact cppStringL_render ht s
+
 /-! ## C. integers -/
 
 theorem digitChar_toNat_fin : ∀ d : Fin 10, (digitChar d.val).toNat = 48 + d.val := by decide
